@@ -21,9 +21,13 @@ def P2(k): return C(1 << k)
 
 
 # =============================================================================== front end
-def dump_mir(tag='whirlpool', crate_dir='/repo/programs/whirlpool', pkg=None, features='verif'):
+REPO = os.environ.get('VERIF_REPO', '/repo')
+
+
+def dump_mir(tag='whirlpool', crate_dir=None, pkg=None, features='verif'):
     """(re)generate the MIR dump from the current working tree; returns the path"""
-    tdir = os.path.join(WORK, 'mir')
+    crate_dir = crate_dir or os.path.join(REPO, 'programs/whirlpool')
+    tdir = os.path.join(WORK, 'mir' if REPO == '/repo' else 'mir_' + hashlib.sha1(REPO.encode()).hexdigest()[:8])
     os.makedirs(tdir, exist_ok=True)
     out = os.path.join(tdir, f'{tag}.{os.getpid()}.mir')
     # force re-emission: cargo prints MIR only when the crate is actually recompiled
@@ -108,7 +112,7 @@ class Mir:
             m = re.search(r'<impl at ([^:>]+):(\d+):', k)
             if not m: continue
             f = m.group(1)
-            for root in ('/repo/', ''):
+            for root in (REPO + '/', '/repo/', ''):
                 if os.path.exists(root + f): f = root + f; break
             if f not in cache:
                 try: cache[f] = open(f).read().split('\n')
@@ -650,10 +654,11 @@ class Engine:
                     pok = self.fork(path, c)
                     if pok is None: return
                     path = pok; bb = m.group(4); jumped = True; break
-                m = re.match(r'^(.*?) = (.*?)\((.*)\) -> \[return: (bb\d+).*\]$', st, re.S)
-                if m and not re.match(r'^(Add|Sub|Mul|Div|Rem|Eq|Lt|Le|Gt|Ge|Ne|BitAnd|BitOr|BitXor|Shl|Shr|Not|Neg|Len|discriminant|CopyForDeref|\w+WithOverflow|\w+Unchecked)$', m.group(2).strip()) \
-                        and not m.group(2).strip().startswith(('copy ', 'move ', 'const ', '&')):
-                    dest, callee, argstr, nxt = m.group(1).strip(), m.group(2).strip(), m.group(3), m.group(4)
+                cm = self.split_call(st)
+                if cm and not re.match(r'^(Add|Sub|Mul|Div|Rem|Eq|Lt|Le|Gt|Ge|Ne|BitAnd|BitOr|BitXor|Shl|Shr|Not|Neg|Len|discriminant|CopyForDeref|\w+WithOverflow|\w+Unchecked)$', cm[1]) \
+                        and not cm[1].startswith(('copy ', 'move ', 'const ', '&')):
+                    m = cm
+                    dest, callee, argstr, nxt = m
                     cargs = [self.operand(fr, a) for a in split_top(argstr)]
                     outs = list(self.call(callee, cargs, path))
                     if not outs: return
@@ -679,6 +684,27 @@ class Engine:
                 raise NotImplementedError('stmt ' + st)
             if not jumped:
                 raise NotImplementedError('fell off block ' + bb + ' in ' + fr.fn.name)
+
+    @staticmethod
+    def split_call(st):
+        """`dest = callee(args) -> [return: bbN, ...]`  ->  (dest, callee, args, bbN); the argument list is the
+        parenthesis group that closes right before ` -> [` (callee paths may contain parentheses themselves)"""
+        m = re.search(r'\) -> \[return: (bb\d+).*\]$', st, re.S)
+        if not m or ' = ' not in st: return None
+        close = m.start()
+        depth = 0; i = close
+        while i >= 0:
+            ch = st[i]
+            if ch == ')': depth += 1
+            elif ch == '(':
+                depth -= 1
+                if depth == 0: break
+            i -= 1
+        if i < 0: return None
+        head = st[:i]
+        eq = head.find(' = ')
+        if eq < 0: return None
+        return head[:eq].strip(), head[eq + 3:].strip(), st[i + 1:close], m.group(1)
 
     def variant_index(self, name):
         raise NotImplementedError('variant order of ' + name)
